@@ -5,7 +5,8 @@ import HapVerif.Generated.Facts
 # C03 — requests reach exactly the ready endpoints that Ingress and Service designate
 
 Model: `HapVerif.Sync` (`fullSync`, the three frontend maps in their real insertion order, `route` =
-C04 map files + lookups + the `use_backend` chain).  Spec: `HapVerif.C03.specRoute`, `ServersOK`
+C04 map files + lookups + the `use_backend` chain; `routeS` = `route` with the hostnames iterated in
+sorted order, which is what the code does since repair 8cccd42).  Spec: `HapVerif.C03.specRoute`, `ServersOK`
 (written over the cluster state).  All theorems hold for every cluster state, every request and every
 Go-map iteration order; proofs in `Lemmas/C03.lean` (core Lean), path precedence from the proved
 `C04.layout_wellordered` / `C04.lookup_of_wellordered`.
@@ -49,6 +50,12 @@ theorem route_iter_indep {w : World} (wf : WFWorld w = true) {π π' : Iter}
 
 /-- the iteration order used by the driver is admissible (the hypothesis `IterOK` is satisfiable) -/
 theorem iter_exists (c : Cfg) : IterOK c c.iter0 := iter0_ok c
+
+/-- **route_spec for the code as it is** (after repair 8cccd42 `rebuildMatchFiles` iterates the
+hostnames sorted, `Sync.routeS`): the routing of the generated configuration is allowed by the Spec -/
+theorem routeS_spec {w : World} (wf : WFWorld w = true) {r : Req} (rq : C04.WFReq r.host r.path = true) :
+    routeS (fullSync w) r ∈ specRoute w r :=
+  route_spec wf (iterSorted_ok _) rq
 
 /-- the parts of the model the Spec refers to, as equations: the paths of the configuration are the
 first declarations; a host has TLS iff an Ingress declares it -/
